@@ -30,6 +30,8 @@ adapter modules are replaced by a fake cluster (class Cluster) that
         printed verbatim -- blanks included.  Step names carry blanks, runs of blanks,
         quotes, parentheses and long tails (gen_opts "names"), so a header that stops
         neutralising the name shifts the white-space separated columns the adapter reads,
+        in a quarter of the histories an ACCEPTED submission also prints informational lines on
+        stderr, or on stdout before / after the acceptance line (gen_opts "chatter"),
   (iii) answers scancel / bkill,
   (iv)  "executes" a local script (exit code = the scripted submission outcome).
 
@@ -123,6 +125,9 @@ def gen_opts(rng, backend):
          "shell": rng.choice(["/bin/bash", "/bin/bash", "/bin/sh"]),
          # step names: what the YAML `name:` key may hold (any non-empty string); see step_name
          "names": rng.choice(["plain", "blank", "blank", "tab", "punct", "mixed", "mixed"])}
+    # a quarter of the clusters talk: a SUCCESSFUL sbatch / bsub also prints harmless informational lines (job_submit
+    # plugin / esub notices, default-queue warnings) on stderr, or on stdout before / after the acceptance line
+    o["chatter"] = "none" if rng.random() < 0.75 else rng.choice(["stderr", "stderr", "stdout_before", "stdout_after", "all", "digits_before"])
     if backend == "slurm":
         # multi-cluster / federated Slurm (SLURM_CLUSTERS, -M): sbatch names the cluster in its answer
         o["federated"] = rng.random() < 0.3
@@ -202,6 +207,21 @@ def job_name_of(path, prog):
     except OSError:
         pass
     return name
+
+
+# What a scheduler may say besides the acceptance line when it ACCEPTS a job (exit 0, the job exists).
+CHATTER = {
+    "sbatch": {"stderr": ["sbatch: Warning: can't honor --ntasks-per-node, ignoring it",
+                          "sbatch: lua: job routed to partition pbatch", "sbatch: Setting account: baasic"],
+               "before": ["Checking allocation: ok"], "after": ["Use squeue --me to follow the job."],
+               # a line with digits before the acceptance line (before fix a5e09c9 its first number became the job id)
+               "digits_before": ["Estimated start in 15 min"]},
+    "bsub": {"stderr": ["Job will be scheduled in the default queue.",
+                        "Warning: run limit not specified; the queue default applies.", "esub: project <guests> charged"],
+             "before": ["Using default project <guests>."], "after": ["Job will be dispatched when resources are available."],
+             # the esub of several sites answers like this on stdout, before bsub's own line
+             "digits_before": ["Memory reservation is (MB): 2048\nMemory Limit is (MB): 2048"]},
+}
 
 
 def _positional(args, valued):
@@ -346,7 +366,19 @@ class Cluster:
         self.jobs[jid] = {"x": x, "kind": kind, "state": "PENDING", "answer": out, "name": name}
         self.order.append(jid)
         self.last["accepted"] = jid
-        return Proc(out, 0, text)
+        err = ""
+        mode = self.opts.get("chatter", "none")
+        if mode != "none" and self.rr.random() < 0.8:
+            ch = CHATTER[prog]
+            if mode in ("stderr", "all"):
+                err = self.rr.choice(ch["stderr"]) + "\n"
+            if mode in ("stdout_before", "digits_before"):
+                out = self.rr.choice(ch["before" if mode == "stdout_before" else "digits_before"]) + "\n" + out
+            if mode in ("stdout_after", "all"):
+                out = out + self.rr.choice(ch["after"]) + "\n"
+            self.stat("accepted with chatter:" + mode)
+            self.jobs[jid]["answer"] = out + ("[stderr] " + err if err else "")
+        return Proc(out, 0, text, err=err)
 
     def do_local(self, path, text):
         self.last = {"prog": "local", "x": _node_in(os.path.basename(path)), "accepted": None, "path": path,
@@ -962,6 +994,7 @@ def selftest(n, seed, biases=None):
             if c["real"].get("federated"):
                 dist["federated"] += 1
             dist["names:" + str(c["real"].get("names", "plain"))] += 1
+            dist["chatter:" + str(c["real"].get("chatter", "none"))] += 1
             for k, v in c.get("real_stats", {}).items():
                 dist["cluster " + k] += v
             for p in c["polls"]:
